@@ -23,6 +23,7 @@ import (
 	"net"
 	"net/http"
 	"net/http/httptest"
+	"net/url"
 	"os"
 	"regexp"
 	"strconv"
@@ -773,7 +774,10 @@ func rlRandomTarget(r *Rng, scriptedNoRoute bool) (method, uri string, matched b
 	case 1:
 		q = "?a=b%20c&d=%22e%22"
 	}
-	switch r.Intn(6) {
+	switch r.Intn(7) {
+	case 6:
+		// request targets that net/url would spell differently from the wire (raw | { } and UTF-8)
+		return method, "/s/n" + strconv.Itoa(r.Intn(50)) + Pick(r, []string{"|x", "{y}", "\u00fc", "^z", "`w"}) + q, true
 	case 0, 1:
 		return method, "/s/n" + strconv.Itoa(r.Intn(50)) + q, true
 	case 2:
@@ -1113,6 +1117,13 @@ func rlServerBatch(rr *rlRun, m *rlMux, cases []rlCase) {
 		CheckRedirect: func(*http.Request, []*http.Request) error { return http.ErrUseLastResponse },
 	}
 	base := "http://" + ln.Addr().String()
+	// Go's HTTP client percent-encodes characters such as { | } in the request line; "the request's
+	// URI" is what travels on the wire, so the expectation uses that spelling
+	for i := range cases {
+		if u, err := url.Parse(base + cases[i].URI); err == nil {
+			cases[i].URI = u.RequestURI()
+		}
+	}
 	rr.batch(m, cases, "server", func(c rlCase) rlObs {
 		req, err := http.NewRequest(c.Method, base+c.URI, nil)
 		if err != nil {
